@@ -76,6 +76,11 @@ META = {
         note=COMMON_NOTE + "PAR acting for the form client_id instead of the authenticated client was repaired in 417e2e2 (model follows). PAR reading credentials from the URL query is a recorded known finding (clientauth:par-query): the repair (authenticate from PostForm) cannot pass the unedited upstream tests, which build requests by assigning r.Form.",
         technique="Lean 4 proof (refinement model = declarative spec; structural induction over the handler loop; decide over go/ast-extracted CanSkipClientAuth facts) + exhaustive differential correspondence + spec monitor",
     ),
+    "C13": dict(
+        text="Kernel-checked theorems over the Lean model of the authorize endpoint (newAuthorizeRequest pipeline in source order, abstract request-object verification, the six authorize handlers of ComposeAllEnabled in registration order, ValidatePrompt, the response writers): an accepted request is valid (registered client, response_type equal to a registered combination as a set, allowed response_mode, redirect_uri present for OpenID Connect, request objects verified against the registered key and algorithm, request_uri pre-registered, state entropy), tokens at the authorize endpoint need the implicit grant and code needs authorization_code, only known response parameters are written, tokens and codes never travel in the URL query for token-bearing response types, and state is echoed on success and on redirected errors — for every input and every outcome. Tied to /repo by a differential driver over the real endpoint and writers; the documented meaning runs as a monitor over (op, observation).",
+        note=COMMON_NOTE + "Arguments.Matches counted case variants as distinct names (a registration 'code Code' matched 'code token'): repaired in f1e5ad8, the model follows and response_type_is_registered_set now holds without hypothesis.",
+        technique="Lean 4 proof (theorems over all inputs of the endpoint model) + differential correspondence + spec monitor on implementation output",
+    ),
     "C14": dict(
         text="Kernel-checked theorems over the Lean model of GenerateIDToken / ToMap / ComputeHash / ValidatePrompt and the six openid handlers (hash and base64 abstract): an ID token is issued only with openid granted and a non-empty subject; aud contains the client and only session audiences beside it; sub/iss come from the session; nonce echoed and length-checked; exp in the future and bounded by the lifespan; at_hash / c_hash are the left half of the hash the header names, over the access token / code of the same exchange, c_hash absent on refresh; max_age, prompt=none/login and id_token_hint violations fail; none of the 13 reserved claims can be overridden by Extra. Tied to /repo by an end-to-end differential driver under synctest with independent go-jose verification; the documented bindings run as a monitor over (op, observation).",
         note=COMMON_NOTE + "Three corner behaviours are limit theorems and excluded from the default generator (see evidence.coverage.partial).",
@@ -85,6 +90,11 @@ META = {
         text="Kernel-checked theorems over a total Lean model of the two assertion decision procedures (client_assertion in DefaultClientAuthenticationStrategy; RFC 7523 JWT-bearer grant) and the nanosecond jti memory of the reference store: an accepted assertion is completely verified (registered sig key for the header's algorithm, registered asymmetric alg, iss/sub, audience names a token URL, unexpired, nbf/iat/max-duration, scopes covered by that key's registration, fresh non-empty jti); over EVERY history (induction with the Blocked invariant) and under EVERY scheduler of n concurrent presentations (invariant over three atomic steps) at most one presentation of a (jti, exp) ticket is accepted, on both paths. Tied to /repo through the real endpoints under synctest.",
         note=COMMON_NOTE + "Two genuine defects found by this check were repaired (72d22c6: exp 0 accepted and replayable; b819172: replay inside [exp, exp+1s), F4); the former counterexample theorems are regression theorems now.",
         technique="Lean 4 proof (total model; induction over histories with the Blocked invariant; scheduler-quantified invariant) + differential correspondence through the real endpoints + spec monitor",
+    ),
+    "C18": dict(
+        text="Kernel-checked theorems over the handler programs interpreted under EVERY fault plan (any storage-call index, any error kind, any number of faults) with and without a transactional store, via a trace automaton and a predicate-transformer calculus that quantifies over all results of every storage call: a token-bearing answer implies that no storage call of the request failed unexpectedly; an unexpected failure is refused; begin is matched by exactly one commit or rollback, never a commit after a failed call inside the transaction, no transaction calls on a non-transactional store; a rolled-back request leaves the whole store equal to the store before it; codes, refresh tokens, device codes and request URIs that were dead stay dead under every fault plan. Tied to /repo by the history driver with fault injection and a transactional recording store (outcome, call log and dump compared after every operation) and by a trace monitor written from the statement.",
+        note=COMMON_NOTE + "See evidence.coverage.partial for the clauses that hold only in weaker form (retry equivalence, serialization mapping outside the refresh flow, flows without a transaction).",
+        technique="Lean 4 proof (trace automaton + predicate-transformer calculus over all call results; interpreter-level atomicity lemma; invariants under all fault plans) + differential correspondence with fault injection + trace monitor",
     ),
     "C19": dict(
         text="Partial under this technique. Proved: a generic lockset soundness theorem and a lock-order deadlock-freedom theorem for RWMutex transition systems with any number of threads, instantiated by kernel evaluation (decide) on lock/access/call facts extracted from storage/memory.go, token/hmac/hmacsha.go and config_default.go on every run: every map access of the reference store is made under its guarding mutex in a sufficient mode, lock acquisition order is acyclic, no re-acquisition, Config getters assign nothing. Support (not proof): a go test -race stress run with overlapping credentials and a deadlock watchdog supplies concrete race reports as replays.",
